@@ -100,7 +100,7 @@ PARSE_FACTS = {
 
 PROPS = {}
 
-GEN_OPS = ("GNLI ", "GNC ", "GSPLIT ", "GFP ", "GSL ", "GSCAN ", "GFINITE ", "GVALID ", "GUT ", "GWT ", "GPARSE ", "GSESS ")
+GEN_OPS = ("GNLI ", "GNC ", "GSPLIT ", "GFP ", "GSL ", "GSCAN ", "GFINITE ", "GVALID ", "GUT ", "GWT ", "GPARSE ", "GSESS ", "GCTRL ")
 
 
 def with_gen(cmp):
@@ -124,7 +124,7 @@ def hist_with_gen(h):
 GEN_NOTE = ("the leaf functions (NewlineIndex, NextChunk, trimFirstSpace, getFieldName, splitFunc, FieldParser.*, isSingleLine, "
             "topicsIntersect, queue.enqueue/dequeue/resize), the encoding side (WriteTo, MarshalText, String), bufio.Scanner.Scan and replay.go (ensureID, queue.each, "
             "findIDInQueue, FiniteReplayer.Put/Replay, ValidReplayer.Put/GC/Replay), Message.UnmarshalText, event.go's read and "
-            "session.go's Session.Send/Flush/doUpgrade are translated from /repo's source to Lean on every run (translate/) and proved equal to the "
+            "session.go's Session.Send/Flush/doUpgrade and client.go's back-off controller (float64 abstract) are translated from /repo's source to Lean on every run (translate/) and proved equal to the "
             "model (GoSSE/Proofs/GenEquiv*.lean); the translator's reading of Go (GoSSE/GoRT.lean) is validated by the GEN ops")
 
 PROPS["C01"] = {
